@@ -856,7 +856,16 @@ impl<'cmd> Parser<'cmd> {
                 )
             }
         } else if let Some(sc_name) = self.possible_long_flag_subcommand(long_arg) {
-            Ok(ParseResult::FlagSubCommand(sc_name.to_string()))
+            if let Some(rest) = long_value {
+                // A flag subcommand takes no value, don't silently drop it
+                Ok(ParseResult::UnneededAttachedValue {
+                    rest: rest.to_string_lossy().into_owned(),
+                    used: Vec::new(),
+                    arg: format!("--{long_arg}"),
+                })
+            } else {
+                Ok(ParseResult::FlagSubCommand(sc_name.to_string()))
+            }
         } else if self
             .cmd
             .get_keymap()
